@@ -713,15 +713,21 @@ class DiskFile(VirtualFileContainer):
 
         # Check to see if there are enough granules for allocation
         allocated_granules = []
-        while len(allocated_granules) < granules_needed:
-            granule = self.find_empty_granule()
-            allocated_granules.append(granule)
-            self.buffer[DiskConstants.FAT_OFFSET + granule] = 0x99
+        try:
+            while len(allocated_granules) < granules_needed:
+                granule = self.find_empty_granule()
+                allocated_granules.append(granule)
+                self.buffer[DiskConstants.FAT_OFFSET + granule] = 0x99
 
-        # Check to see if there is a free directory entry to save the file
-        directory_entry = self.find_empty_directory_entry()
-        if directory_entry == -1:
-            raise VirtualFileValidationError("No free directory entry to save file")
+            # Check to see if there is a free directory entry to save the file
+            directory_entry = self.find_empty_directory_entry()
+            if directory_entry == -1:
+                raise VirtualFileValidationError("No free directory entry to save file")
+        except VirtualFileValidationError:
+            # The file is refused: give back the granules that were set aside for it
+            for granule in allocated_granules:
+                self.buffer[DiskConstants.FAT_OFFSET + granule] = 0xFF
+            raise
 
         # Calculate the number of bytes used in the last sector, and the number of sectors in the last granule
         last_sector_bytes_used = self.calculate_last_sector_bytes_used(coco_file.data, preamble, postamble)
